@@ -24,7 +24,7 @@ const (
 )
 
 type kindInfo struct {
-	name                            string
+	name                             string
 	directed, weighted, multi, dense bool
 }
 
